@@ -16,6 +16,7 @@ import (
 	_ "verif/htlab/internal/props/c12"
 	_ "verif/htlab/internal/props/c13"
 	_ "verif/htlab/internal/props/c14"
+	_ "verif/htlab/internal/props/c15"
 	_ "verif/htlab/internal/props/c16"
 	_ "verif/htlab/internal/props/c17"
 	_ "verif/htlab/internal/props/c19"
